@@ -279,6 +279,18 @@ Inductive lreach_o : lstate -> Prop :=
 | lo_init cacher cap : lreach_o (linit cacher cap)
 | lo_step L a L' : lreach_o L -> lstep_o L a = Some L' -> lreach_o L'.
 
+(* everything except force-close: Close(false) is an action like any other (it needs Cache.mu.Lock, i.e.
+   no goroutine inside an RLock section, but may overlap Release / SetCapacity and pending zero-checks) *)
+Definition is_force_close (a : action) : bool := match a with AStart _ (OClose true) => true | _ => false end.
+Definition lstep_c (L : lstate) (a : action) : option lstate := if is_force_close a then None else lstep L a.
+Inductive lreach_c : lstate -> Prop :=
+| lc_init cacher cap : lreach_c (linit cacher cap)
+| lc_step L a L' : lreach_c L -> lstep_c L a = Some L' -> lreach_c L'.
+
+(* the instructions a goroutine outside any RLock section can have pending *)
+Definition ext_only (i : instr) : bool :=
+  match i with IDec _ true | IZero _ _ _ true | IEvict _ => true | _ => false end.
+
 Inductive lreach_q : lstate -> Prop :=
 | lq_init cacher cap : lreach_q (linit cacher cap)
 | lq_step L a L' : lreach_q L -> lstep_q L a = Some L' -> lreach_q L'.
@@ -294,6 +306,12 @@ Fixpoint lrun_o (L : lstate) (tr : list action) : option lstate :=
   match tr with
   | [] => Some L
   | a :: tr' => match lstep_o L a with Some L' => lrun_o L' tr' | None => None end
+  end.
+
+Fixpoint lrun_c (L : lstate) (tr : list action) : option lstate :=
+  match tr with
+  | [] => Some L
+  | a :: tr' => match lstep_c L a with Some L' => lrun_c L' tr' | None => None end
   end.
 
 (* one goroutine running alone until its code is exhausted *)
